@@ -486,6 +486,7 @@ func (c *BytecodeCompiler) CompileInclude(target types.Namespace, mixin *types.M
 func (c *BytecodeCompiler) InitExpressionCompiler(location *position.Location) Compiler {
 	exprCompiler := NewBytecodeCompiler("<file>", topLevelBytecodeCompilerMode, location, c.checker, c.globalData)
 	exprCompiler.Errors = c.Errors
+	exprCompiler.additionalAbortChecks = c.additionalAbortChecks
 
 	c.emitValue(value.Ref(exprCompiler.bytecode), location)
 	c.emit(location.StartPos.Line, bytecode.EXEC)
@@ -605,6 +606,7 @@ func (c *BytecodeCompiler) compileFunction(location *position.Location, paramete
 func (c *BytecodeCompiler) InitMethodCompiler(location *position.Location) (Compiler, int) {
 	methodCompiler := NewBytecodeCompiler("<methodDefinitions>", topLevelBytecodeCompilerMode, c.bytecode.Location, c.checker, c.globalData)
 	methodCompiler.Errors = c.Errors
+	methodCompiler.additionalAbortChecks = c.additionalAbortChecks
 	methodCompiler.parent = c
 
 	offset := c.nextInstructionOffset()
@@ -620,6 +622,7 @@ var ivarIndicesSymbol = value.ToSymbol("<ivarIndices>")
 func (c *BytecodeCompiler) InitIvarIndicesCompiler(location *position.Location) (Compiler, int) {
 	ivarCompiler := NewBytecodeCompiler(ivarIndicesSymbol.String(), topLevelBytecodeCompilerMode, c.bytecode.Location, c.checker, c.globalData)
 	ivarCompiler.Errors = c.Errors
+	ivarCompiler.additionalAbortChecks = c.additionalAbortChecks
 	ivarCompiler.parent = c
 
 	offset := c.nextInstructionOffset()
@@ -939,6 +942,7 @@ func (c *BytecodeCompiler) CompileMethodBody(node *ast.MethodDefinitionNode, nam
 	methodCompiler.isGenerator = node.IsGenerator()
 	methodCompiler.isAsync = node.IsAsync()
 	methodCompiler.Errors = c.Errors
+	methodCompiler.additionalAbortChecks = c.additionalAbortChecks
 	methodType := c.typeOf(node).(*types.Method)
 	methodCompiler.hasDefer = methodType.HasDefer()
 	methodCompiler.compileMethodBody(node.Location(), node.Parameters, node.Body)
@@ -949,6 +953,7 @@ func (c *BytecodeCompiler) CompileMethodBody(node *ast.MethodDefinitionNode, nam
 func (c *BytecodeCompiler) CompileMacroBody(node *ast.MacroDefinitionNode, name value.Symbol) *vm.BytecodeFunction {
 	methodCompiler := NewBytecodeCompiler(name.String(), macroBytecodeCompilerMode, node.Location(), c.checker, c.globalData)
 	methodCompiler.Errors = c.Errors
+	methodCompiler.additionalAbortChecks = c.additionalAbortChecks
 	methodType := c.typeOf(node).(*types.Method)
 	methodCompiler.hasDefer = methodType.HasDefer()
 	methodCompiler.compileMacroBody(node.Location(), node.Parameters, node.Body)
@@ -1719,6 +1724,7 @@ func (c *BytecodeCompiler) compileDeferExpressionNode(node *ast.DeferExpressionN
 	closureCompiler := NewBytecodeCompiler("<defer>", methodBytecodeCompilerMode, loc, c.checker, c.globalData)
 	closureCompiler.parent = c
 	closureCompiler.Errors = c.Errors
+	closureCompiler.additionalAbortChecks = c.additionalAbortChecks
 	closureCompiler.hasDefer = node.HasDefer
 	closureCompiler.compileFunction(
 		loc,
@@ -4979,6 +4985,7 @@ func (c *BytecodeCompiler) singletonBlockIsCompilable(node *ast.SingletonBlockEx
 
 	singletonCompiler := NewBytecodeCompiler(fmt.Sprintf("<singleton_class: %s>", singletonName), namespaceBytecodeCompilerMode, location, c.checker, c.globalData)
 	singletonCompiler.Errors = c.Errors
+	singletonCompiler.additionalAbortChecks = c.additionalAbortChecks
 	singletonCompiler.hasDefer = node.HasDefer
 	if !singletonCompiler.compileNamespace(node) {
 		return false
@@ -5006,6 +5013,7 @@ func (c *BytecodeCompiler) compileGoExpressionNode(node *ast.GoExpressionNode) {
 	closureCompiler := NewBytecodeCompiler("<closure>", methodBytecodeCompilerMode, node.Location(), c.checker, c.globalData)
 	closureCompiler.parent = c
 	closureCompiler.Errors = c.Errors
+	closureCompiler.additionalAbortChecks = c.additionalAbortChecks
 	closureCompiler.hasDefer = node.HasDefer
 	closureCompiler.compileFunctionStatements(node.Location(), nil, node.Body)
 
@@ -5045,6 +5053,7 @@ func (c *BytecodeCompiler) compileClosureLiteralNode(node *ast.ClosureLiteralNod
 	closureCompiler := NewBytecodeCompiler("<closure>", methodBytecodeCompilerMode, node.Location(), c.checker, c.globalData)
 	closureCompiler.parent = c
 	closureCompiler.Errors = c.Errors
+	closureCompiler.additionalAbortChecks = c.additionalAbortChecks
 	closureType := c.typeOf(node).(*types.Callable)
 	closureCompiler.hasDefer = closureType.Body.HasDefer()
 	closureCompiler.compileFunctionStatements(node.Location(), node.Parameters, node.Body)
@@ -5094,6 +5103,7 @@ func (c *BytecodeCompiler) mixinIsCompilable(node *ast.MixinDeclarationNode) boo
 
 	mixinCompiler := NewBytecodeCompiler(fmt.Sprintf("<mixin: %s>", mixinType.Name()), namespaceBytecodeCompilerMode, node.Location(), c.checker, c.globalData)
 	mixinCompiler.Errors = c.Errors
+	mixinCompiler.additionalAbortChecks = c.additionalAbortChecks
 	mixinCompiler.hasDefer = node.HasDefer
 	if !mixinCompiler.compileNamespace(node) {
 		return false
@@ -5126,6 +5136,7 @@ func (c *BytecodeCompiler) moduleIsCompilable(node *ast.ModuleDeclarationNode) b
 	modType := c.typeOf(node).(*types.Module)
 	modCompiler := NewBytecodeCompiler(fmt.Sprintf("<module: %s>", modType.Name()), namespaceBytecodeCompilerMode, node.Location(), c.checker, c.globalData)
 	modCompiler.Errors = c.Errors
+	modCompiler.additionalAbortChecks = c.additionalAbortChecks
 	modCompiler.hasDefer = node.HasDefer
 	if !modCompiler.compileNamespace(node) {
 		return false
@@ -5158,6 +5169,7 @@ func (c *BytecodeCompiler) interfaceIsCompilable(node *ast.InterfaceDeclarationN
 
 	ifaceCompiler := NewBytecodeCompiler(fmt.Sprintf("<interface: %s>", ifaceType.Name()), namespaceBytecodeCompilerMode, node.Location(), c.checker, c.globalData)
 	ifaceCompiler.Errors = c.Errors
+	ifaceCompiler.additionalAbortChecks = c.additionalAbortChecks
 	ifaceCompiler.hasDefer = node.HasDefer
 	if !ifaceCompiler.compileNamespace(node) {
 		return false
@@ -5190,6 +5202,7 @@ func (c *BytecodeCompiler) classIsCompilable(node *ast.ClassDeclarationNode) boo
 
 	classCompiler := NewBytecodeCompiler(fmt.Sprintf("<class: %s>", classType.Name()), namespaceBytecodeCompilerMode, node.Location(), c.checker, c.globalData)
 	classCompiler.Errors = c.Errors
+	classCompiler.additionalAbortChecks = c.additionalAbortChecks
 	classCompiler.hasDefer = node.HasDefer
 	if !classCompiler.compileNamespace(node) {
 		return false
